@@ -545,10 +545,13 @@ fn run_concurrent(s: &S15, ctx: &mut Ctx) -> Result<(), (String, Option<String>)
     }
     ctx.steps += o.len() as u64;
     *ctx.probes.entry("c15.schedules_executed").or_insert(0) += o.len() as u64;
-    match res {
+    let out = match res {
         Ok(()) => Ok(()),
         Err(_) => Err((last_panic(), newest_schedule(&dir))),
-    }
+    };
+    // scratch directory of this process (only ever holds the schedule file of a failure, read above)
+    let _ = std::fs::remove_dir(&dir);
+    out
 }
 
 fn oracle_of(msg: &str) -> (String, String) {
